@@ -1,7 +1,8 @@
 #!/bin/sh
 # Re-run every kept seeded change against the current quick checks: each must still be caught.
 # usage: tools/seedregress.sh [seed ids...]   (default: all of seeded/)
-# Uses one scratch worktree of /repo HEAD under /tmp and removes it at the end.
+# Uses one scratch worktree of /repo HEAD under /tmp and removes it at the end; evidence and replays of these
+# runs go to a scratch directory (VERIF_SCRATCH_OUT), not to /verif.
 cd /verif || exit 2
 WT=/tmp/wt-seedreg
 git -C /repo worktree remove --force $WT 2>/dev/null
@@ -23,15 +24,16 @@ for s in $seeds; do
   [ "$s" = "C18-e" ] && ids=C17
   [ "$s" = "C05-f" ] && ids=C01
   [ "$s" = "C09-f" ] && ids=C05
+  if grep -q '"retired"' /verif/seeded/$s/meta.json; then echo "$s: retired (see meta.json)"; continue; fi
   git -C $WT checkout -q -- . ; git -C $WT clean -fdq
   if ! git -C $WT apply /verif/seeded/$s/patch.diff 2>/dev/null; then echo "$s: PATCH DOES NOT APPLY"; miss=$((miss+1)); continue; fi
   caught=no
   for id in $ids; do
-    out=$(VERIF_REPO=$WT ./check $id quick 2>&1)
+    out=$(VERIF_SCRATCH_OUT=/tmp/seedreg-out VERIF_REPO=$WT ./check $id quick 2>&1)
     if echo "$out" | grep -q "^VIOLATION"; then caught="$id: $(echo "$out" | grep -A1 '^VIOLATION' | sed -n 2p | cut -c1-140)"; break; fi
   done
   if [ "$caught" = no ]; then echo "$s: NOT CAUGHT ($(echo "$out" | grep -E '^(OK|INCONCLUSIVE)' | head -1 | cut -c1-120))"; miss=$((miss+1)); else echo "$s: caught by $caught"; fi
-  rm -f /verif/replays/C*
 done
 git -C /repo worktree remove --force $WT
+rm -rf /tmp/seedreg-out
 echo "not caught: $miss"
